@@ -67,6 +67,10 @@ pub mod state;
 /// Defines the store types that can be included in agent specifications. These are not exposed externally but their states
 /// may be stored persistently by the runtime.
 pub mod stores;
+
+/// Re-exports of crate-private components for the external verification harness.
+#[cfg(feature = "verif_hooks")]
+pub mod verif;
 #[cfg(test)]
 mod test_context;
 #[cfg(test)]
